@@ -108,6 +108,7 @@ pub fn merge_stats(a: &mut RunStats, b: &RunStats) {
     a.late_join += b.late_join;
     a.restart_after_exit += b.restart_after_exit;
     a.forced_start += b.forced_start;
+    a.blocked_handoffs += b.blocked_handoffs;
     a.hash_rekey += b.hash_rekey;
     for (k, v) in &b.poison_ops {
         *a.poison_ops.entry(k.clone()).or_insert(0) += v;
@@ -216,7 +217,7 @@ pub fn work_main(a: &WorkArgs) {
                     property: "C13".into(),
                     engine: "H".into(),
                     verif_seed: a.verif_seed,
-                    profile: profile_name().into(),
+                    profile: profile_name(),
                     scenarios: vec![sc.clone()],
                     decisions: vec![rle(&r.decisions)],
                     violation: Some(v.clone()),
@@ -369,7 +370,7 @@ pub fn batch_main(b: &BatchArgs) -> BatchOut {
     let t0 = Instant::now();
     std::fs::create_dir_all(&b.work_dir).expect("work dir");
     std::fs::create_dir_all(&b.replay_dir).expect("replay dir");
-    let mut out = BatchOut { engine: "H".into(), profile: profile_name().into(), verif_seed: b.verif_seed, ..Default::default() };
+    let mut out = BatchOut { engine: "H".into(), profile: profile_name(), verif_seed: b.verif_seed, ..Default::default() };
 
     // 1. pool
     let pool = pool::build(b.verif_seed, b.pool_size);
@@ -798,7 +799,7 @@ fn world_file(g: &GenCtx, tables: &[Vec<u32>; 4], verif_seed: u64, w: u64) -> (R
         property: "C13".into(),
         engine: "W".into(),
         verif_seed,
-        profile: profile_name().into(),
+        profile: profile_name(),
         decisions: vec![Vec::new(); scenarios.len()],
         scenarios,
         violation: None,
@@ -815,7 +816,7 @@ pub fn worlds_main(b: &WorldArgs) -> WorldsOut {
     let t0 = Instant::now();
     std::fs::create_dir_all(&b.work_dir).expect("work dir");
     std::fs::create_dir_all(&b.replay_dir).expect("replay dir");
-    let mut out = WorldsOut { engine: "W".into(), profile: profile_name().into(), ..Default::default() };
+    let mut out = WorldsOut { engine: "W".into(), profile: profile_name(), ..Default::default() };
     out.stats.yield_hits = vec![0; N_SITES];
     out.stats.yield_preempts = vec![0; N_SITES];
     out.prefix_lengths = vec![0; 5];
